@@ -17,11 +17,14 @@ func init() { register("C11", c11) }
 // consecutive ids, an erroneous entry (Err set, no tree) or a tree on other taxa at position bad.
 func c11feed(c *Sexp) (<-chan tree.Trees, error) {
 	trees := c.Get("trees")
-	badpos := c.Int("badpos")
+	badposs := map[int]bool{}
+	for _, p := range c.IntList("badposs") {
+		badposs[p] = true
+	}
 	badkind := c.Str("badkind")
 	items := make([]tree.Trees, 0, len(trees.List))
 	for i, ts := range trees.List {
-		if badkind == "err" && i == badpos {
+		if badkind == "err" && badposs[i] {
 			items = append(items, tree.Trees{Tree: nil, Id: i, Err: errors.New("injected reader error")})
 			continue
 		}
@@ -29,7 +32,7 @@ func c11feed(c *Sexp) (<-chan tree.Trees, error) {
 		if err != nil {
 			return nil, err
 		}
-		if badkind == "taxa" && i == badpos {
+		if badkind == "taxa" && badposs[i] {
 			t.Tips()[0].SetName("zz_foreign")
 		}
 		items = append(items, tree.Trees{Tree: t, Id: i})
